@@ -97,10 +97,31 @@ def redefinition_scenario():
     return same_process, fresh
 
 
+def name_clash_scenario():
+    """A module-level tracked variable has the name of a function (or of a nested-def parameter) that an EARLIER analysed
+    function of another module mentions: the decision taken for one name must not leak to the other."""
+    import values as V
+    m0 = {"vars": {}, "funcs": [
+        {"name": "scale", "params": [], "annot": None, "salt": "sc0", "stmts": [], "reads": []},
+        {"name": "report", "params": [], "annot": "/report", "salt": "rp0", "stmts": [{"k": "call", "callee": ("m0", "scale"), "args": []}], "reads": []}]}
+    m1 = {"vars": {"scale": V.i_(10), "window": V.i_(3)}, "funcs": [
+        {"name": "feat", "params": [], "annot": "/feat", "salt": "ft0", "stmts": [], "reads": ["scale", "window"]},
+        {"name": "root", "params": [], "annot": None, "salt": "rt0", "reads": [],
+         "stmts": [{"k": "call", "callee": ("m0", "report"), "args": [], "via": "attr"}, {"k": "call", "callee": ("m1", "feat"), "args": []}]}]}
+    prog = {"pkg": "vpn", "ext_helpers": {}, "root": ("m1", "root"), "modules": {"m0": m0, "m1": m1}}
+    root = {"a": "call", "mod": "m1", "fn": "root", "style": "eval", "pos": [], "kw": []}
+    rep_ = {"a": "call", "mod": "m0", "fn": "report", "style": "direct", "pos": [], "kw": []}
+    feat = {"a": "call", "mod": "m1", "fn": "feat", "style": "direct", "pos": [], "kw": []}
+    return [("one-evaluation", [("prog", prog), ("act", root)]),
+            ("after-earlier-evaluation", [("prog", prog), ("act", rep_), ("act", feat)]),
+            ("fresh", [("prog", prog), ("act", feat)])]
+
+
 def run_job(job):
     name, ev, kw = job
     try:
-        recs = hist.run_history(ev, run_ref=False, run_model=(name in ("baseline", "after-earlier-evaluations-in-process", "in-process-source-edits")), **kw)
+        recs = hist.run_history(ev, run_ref=False, run_model=(name in ("baseline", "after-earlier-evaluations-in-process", "in-process-source-edits",
+                                                                       "one-evaluation", "after-earlier-evaluation", "fresh")), **kw)
         return recs
     except Exception as e:  # noqa
         return {"error": str(e)[-1000:]}
@@ -173,6 +194,24 @@ def run(rep, tier, seed, proof_ok):
             rep.violation("history-dependent:redefinition-after-helper-removed",
                           f"after an earlier evaluation in the same process the redefined function gives {s1[:80]}, a fresh process gives {s2[:80]}",
                           {"same_process": sp, "fresh": fr, "same_process_result": s1, "fresh_result": s2})
+    # name clash between a function of one module and a tracked variable of another
+    ncs = name_clash_scenario()
+    nres = [run_job((n, ev, dict(store_kind="memory"))) for n, ev in ncs]
+    sig_feat = {}
+    for (n, ev), recs in zip(ncs, nres):
+        rep.case("name-clash:" + n)
+        if isinstance(recs, dict):
+            rep.violation("harness-error:c03", "name-clash scenario could not be run: " + recs["error"][-300:], {"events": ev}, no_input=True)
+            continue
+        for r in recs:
+            d = [x for x in hist.compare(r) if x[0] in ("signatures", "outcome")]
+            if d:
+                rep.violation("model-mismatch:signatures", f"name clash ({n}): implementation and model disagree: {json.dumps(d)[:300]}", {"variant": n, "diffs": d, "events": ev})
+        o = hist.impl_obs(recs[-1])
+        sig_feat[n] = dict(x.split("=") for x in (o["sigs"] or "").split(",") if x).get("/feat")
+    if sig_feat.get("after-earlier-evaluation") != sig_feat.get("fresh"):
+        rep.violation("history-dependent:name-clash", "the signature of a function reading a tracked variable depends on whether a function of another module "
+                      "that mentions a function of the same name was analysed earlier in the process", {"signatures_of_/feat": sig_feat, "events": ncs[1][1]})
     npin = 0
     for r in corp:
         rep.case("corpus:" + r["name"], nontrivial=bool(r["pinned"]))
